@@ -171,3 +171,23 @@ pub fn do_dealloc<A: Allocator>(alloc: &A, ptr: Block, layout: Layout, Ghost(t):
     requires
         spec_layout_for(tl, (t.bucket_mask + 1) as usize) matches Some(p) && layout == p.0 && ptr.back@ == p.1,
 { unimplemented!() }
+
+// ---- RawTable::into_allocation ----
+pub struct RawTable<T, A> { pub table: RawTableInner, pub alloc: A, pub marker: Ghost<Option<T>> }
+impl<T, A: Allocator> RawTable<T, A> {
+    // R14: TABLE_LAYOUT of the element type: some fixed valid layout
+    pub uninterp spec fn spec_table_layout() -> TableLayout;
+    #[verifier::external_body]
+    pub fn table_layout() -> (r: TableLayout)
+        ensures r == Self::spec_table_layout(),
+    { unimplemented!() }
+    // len() == 0 (not used by the unchanged text; keeps a changed text that asks it inside the dialect)
+    pub fn is_empty(&self) -> (r: bool) ensures r == (self.table.items == 0) { self.table.items == 0 }
+}
+impl RawTableInner {
+    pub fn is_empty(&self) -> (r: bool) ensures r == (self.items == 0) { self.items == 0 }
+}
+// `ptr::read(&self.alloc)`: the allocator handle is moved out of a table that is forgotten right after
+#[verifier::external_body]
+pub fn alloc_read<A>(a: &A) -> (r: A) { unimplemented!() }
+pub fn forget_table<T, A>(t: RawTable<T, A>) { }
